@@ -139,11 +139,17 @@ def Cmp.negate : Cmp → Cmp
   | .contains => .notcontains | .notcontains => .contains
 
 /-- `BoolOp.__init__`: arguments of the same type are promoted one level -/
-def mkAnd (qs : List Q) : Q :=
-  .and (qs.flatMap fun q => match q with | .and xs => xs | q => [q])
+def flatAnd : Q → List Q
+  | .and xs => xs
+  | q => [q]
 
-def mkOr (qs : List Q) : Q :=
-  .or (qs.flatMap fun q => match q with | .or xs => xs | q => [q])
+def flatOr : Q → List Q
+  | .or xs => xs
+  | q => [q]
+
+def mkAnd (qs : List Q) : Q := .and (qs.flatMap flatAnd)
+
+def mkOr (qs : List Q) : Q := .or (qs.flatMap flatOr)
 
 mutual
 def negate : Q → Q
@@ -235,20 +241,29 @@ def valOk : Cmp → Val → Bool
   | _, .many _ => false
 
 mutual
-def wellTyped (cat : Catalog) : Q → Bool
+def wellTypedW (sup : IndexT → Cmp → Bool) (cat : Catalog) : Q → Bool
   | .cmp c i v => match cat[i]? with
-    | some ix => supports ix c && valOk c v
+    | some ix => sup ix c && valOk c v
     | none => false
   | .range _ i _ _ _ _ => match cat[i]? with
     | some (.field _) => true
     | _ => false
-  | .and qs => !qs.isEmpty && wellTypedList cat qs
-  | .or qs => !qs.isEmpty && wellTypedList cat qs
-  | .not q => wellTyped cat q
-def wellTypedList (cat : Catalog) : List Q → Bool
+  | .and qs => !qs.isEmpty && wellTypedListW sup cat qs
+  | .or qs => !qs.isEmpty && wellTypedListW sup cat qs
+  | .not q => wellTypedW sup cat q
+def wellTypedListW (sup : IndexT → Cmp → Bool) (cat : Catalog) : List Q → Bool
   | [] => true
-  | q :: qs => wellTyped cat q && wellTypedList cat qs
+  | q :: qs => wellTypedW sup cat q && wellTypedListW sup cat qs
 end
+
+/-- every comparator is implemented by its index class -/
+def wellTyped (cat : Catalog) (q : Q) : Bool := wellTypedW supports cat q
+
+/-- `supports` minus `All`/`NotAll` (whose query-object negation is finding D2) -/
+def supportsStrict (ix : IndexT) (c : Cmp) : Bool :=
+  supports ix c && !decide (c = .all) && !decide (c = .notall)
+
+def wellTypedStrict (cat : Catalog) (q : Q) : Bool := wellTypedW supportsStrict cat q
 
 /-! ## `_optimize` -/
 
